@@ -289,6 +289,7 @@ type consumer struct {
 	abandoned bool
 	// a withdrawal overtook the consumer's own queued want-request
 	abandonPending bool
+	waitIdle       bool // the wait was started with the idle priority
 	waiting        bool
 	pi, pp         int // the request being issued
 	pwant          bool
@@ -302,7 +303,10 @@ type qev struct {
 	want bool
 	i    int
 	ask  int
+	idle bool
 }
+
+func peerConf(w *world) (peer.TorConf, error) { return peer.TorConf{}, nil }
 
 type reqResult struct {
 	added bool
@@ -380,6 +384,9 @@ func runRequests(sc *Scenario, out *Out) {
 			c.result = make(chan reqResult, 1)
 			c.busy = true
 			prio := int8(st.P - 1)
+			if st.P == 9 {
+				prio = tor.IdlePriority // Requests!IdleP
+			}
 			i, want := st.I, st.Want
 			go func() {
 				yieldMu.Lock()
@@ -438,9 +445,11 @@ func runRequests(sc *Scenario, out *Out) {
 				out.Note = fmt.Sprintf("the request command never reached the queue (queue %d, parked %v, gates %d)\n%s", len(w.t.Event), w.parked, len(w.gates), buf[:n])
 				return
 			}
-			c.held[[2]int{c.pi, c.pp}]++
+			if c.pp != 9 {
+				c.held[[2]int{c.pi, c.pp}]++ // an idle request registers no priority
+			}
 			c.sentStep = w.step
-			evQ = append(evQ, qev{c, c.pwant, c.pi, c.askStep})
+			evQ = append(evQ, qev{c, c.pwant, c.pi, c.askStep, c.pp == 9})
 			w.pushGates()
 			if !c.pwant {
 				// no reply expected: the call returns at once
@@ -452,6 +461,13 @@ func runRequests(sc *Scenario, out *Out) {
 					return
 				}
 			}
+		case "ApiPrune":
+			// a configuration change: the loop prunes the idle entries (and wakes their waiters)
+			conf, _ := peerConf(w)
+			w.t.Event <- peer.TorSetConf{Conf: conf}
+			evQ = append(evQ, qev{})
+			w.mirror = append(w.mirror, 's')
+			w.pushGates()
 		case "ApiWithdraw":
 			c := get(st.K)
 			key := [2]int{st.I, st.P}
@@ -503,6 +519,7 @@ func runRequests(sc *Scenario, out *Out) {
 					c.ch = r.ch
 					c.waiting = r.ch != nil
 					c.waitPiece = e.i
+					c.waitIdle = e.idle
 					c.waitSince = e.ask
 					c.abandoned = c.abandonPending
 					c.abandonPending = false
@@ -554,9 +571,11 @@ func runRequests(sc *Scenario, out *Out) {
 		if c.busy && c.atGate {
 			c.atGate = false
 			close(c.resume)
-			c.held[[2]int{c.pi, c.pp}]++
+			if c.pp != 9 {
+				c.held[[2]int{c.pi, c.pp}]++ // an idle request registers no priority
+			}
 			c.sentStep = w.step
-			evQ = append(evQ, qev{c, c.pwant, c.pi, c.askStep})
+			evQ = append(evQ, qev{c, c.pwant, c.pi, c.askStep, c.pp == 9})
 		}
 	}
 	for i := range pendingHave {
@@ -576,6 +595,7 @@ func runRequests(sc *Scenario, out *Out) {
 			c.ch = r.ch
 			c.waiting = r.ch != nil
 			c.waitPiece = e.i
+			c.waitIdle = e.idle
 			c.waitSince = e.ask
 			c.abandoned = c.abandonPending
 			c.abandonPending = false
@@ -637,7 +657,7 @@ func runRequests(sc *Scenario, out *Out) {
 		default:
 		}
 		complete := w.t.Pieces.Complete(uint32(c.waitPiece))
-		stillHolds := false
+		stillHolds := c.waitIdle // a waiter that asked with the idle priority holds nothing, and waits all the same
 		for k, n := range c.held {
 			if k[0] == c.waitPiece && n > 0 {
 				stillHolds = true
@@ -646,7 +666,8 @@ func runRequests(sc *Scenario, out *Out) {
 		if complete && !closed && stillHolds {
 			w.viol("C10", "lost-wakeup", fmt.Sprintf("consumer %s waits on an open channel for piece %d, which is verified and announced", c.name, c.waitPiece))
 		}
-		if closed && !c.abandoned && stillHolds && w.verifiedEver[c.waitPiece] < c.waitSince && !complete {
+		// (an idle waiter is legitimately woken when the idle entries are pruned)
+		if closed && !c.abandoned && !c.waitIdle && stillHolds && w.verifiedEver[c.waitPiece] < c.waitSince && !complete {
 			w.viol("C10", "woken-unverified", fmt.Sprintf("consumer %s was woken for piece %d which has not been verified since it asked (asked at step %d, verified at step %d, abandoned %v, held %v)", c.name, c.waitPiece, c.waitSince, w.verifiedEver[c.waitPiece], c.abandoned, c.held))
 		}
 	}
